@@ -1654,6 +1654,19 @@ DOMNode* DOMRangeImpl::traversePartiallySelected( DOMNode*n, int how )
 }
 
 /**
+ * Utility method to delete part of the data of a text node
+ * (Text, CDATASection, Comment or ProcessingInstruction).
+ *
+ */
+static void deleteTextData( DOMNode* n, XMLSize_t offset, XMLSize_t count )
+{
+    if (n->getNodeType() == DOMNode::PROCESSING_INSTRUCTION_NODE)
+        ((DOMProcessingInstructionImpl*)n)->deleteData(offset, count);
+    else
+        ((DOMCharacterData*)n)->deleteData(offset, count);
+}
+
+/**
  * Utility method for traversing a text node that we know
  * a-priori to be on a left or right boundary of the range.
  * This method does not properly handle text nodes that contain
@@ -1670,31 +1683,11 @@ DOMNode* DOMRangeImpl::traverseTextNode( DOMNode*n, bool isLeft, int how )
         XMLSize_t startLen = XMLString::stringLen(fStartContainer->getNodeValue());
         XMLSize_t offset = getStartOffset();
 
-        if (offset == 0) {
-            if ( how != CLONE_CONTENTS )
-                n->setNodeValue(XMLUni::fgZeroLenString);
-        }
-        else {
-            XMLCh* oldNodeValue;
-            XMLCh oldTemp[4000];
-
-            if (offset >= 3999)  {
-                oldNodeValue = (XMLCh*) fMemoryManager->allocate
-                (
-                    (offset+1) * sizeof(XMLCh)
-                );//new XMLCh[offset+1];
-            }
-            else {
-                oldNodeValue = oldTemp;
-            }
-            XMLString::subString(oldNodeValue, txtValue, 0, offset, ((DOMDocumentImpl *)fDocument)->getMemoryManager());
-
-            if ( how != CLONE_CONTENTS )
-                n->setNodeValue( ((DOMDocumentImpl *)fDocument)->getPooledString(oldNodeValue) );
-
-            if (offset>= 3999)
-                fMemoryManager->deallocate(oldNodeValue);//delete[] oldNodeValue;
-        }
+        // Cut the selected tail off the node. This has to be a deletion and
+        // not a new node value, so that other ranges with a boundary in
+        // this node keep their position or are moved to the cut.
+        if ( how != CLONE_CONTENTS && offset < startLen )
+            deleteTextData(n, offset, startLen - offset);
 
         if ( how==DELETE_CONTENTS )
             return 0;
@@ -1731,31 +1724,9 @@ DOMNode* DOMRangeImpl::traverseTextNode( DOMNode*n, bool isLeft, int how )
         XMLSize_t endLen = XMLString::stringLen(fEndContainer->getNodeValue());
         XMLSize_t offset = getEndOffset();
 
-        if (endLen == offset) {
-            if ( how != CLONE_CONTENTS )
-                n->setNodeValue(XMLUni::fgZeroLenString);
-        }
-        else {
-            XMLCh* oldNodeValue;
-            XMLCh oldTemp[4000];
-
-            if (offset >= 3999)  {
-                oldNodeValue = (XMLCh*) fMemoryManager->allocate
-                (
-                    (offset+1) * sizeof(XMLCh)
-                );//new XMLCh[offset+1];
-            }
-            else {
-                oldNodeValue = oldTemp;
-            }
-            XMLString::subString(oldNodeValue, txtValue, offset, endLen, ((DOMDocumentImpl *)fDocument)->getMemoryManager());
-
-            if ( how != CLONE_CONTENTS )
-                n->setNodeValue( ((DOMDocumentImpl *)fDocument)->getPooledString(oldNodeValue) );
-
-            if (offset>= 3999)
-                fMemoryManager->deallocate(oldNodeValue);//delete[] oldNodeValue;
-        }
+        // Cut the selected head off the node, again as a deletion.
+        if ( how != CLONE_CONTENTS && offset > 0 )
+            deleteTextData(n, 0, offset);
 
         if ( how==DELETE_CONTENTS )
             return 0;
